@@ -304,12 +304,14 @@ Section gen.
      0 value expression (call result, cast)   1 variable in local storage (parameter, field of a by-value
      parameter, range variables, temporaries)   2 variable in memory reachable from the caller's value
      (slice element, field behind a pointer)   3 dereference *p (not a JenID variable; its fields/elements are class 2).
-     id.Pointer() takes the address of a variable instead of copying it: for class 2 that aliases the source. *)
+     id.Pointer() takes the address of a variable instead of copying it: for class 2 that would alias the source.
+     Since fix f2ba6e9 (finding F-C04-2) TargetPointer.Build copies an unconverted source expression that is not a
+     plain identifier into a local first, so the address handed out is never one of the source: [aliasing] is
+     constantly false (plain identifiers are class 1: parameters and loop variables, copies already). *)
   Definition LV_VALUE : N := 0. Definition LV_LOCAL : N := 1. Definition LV_HEAP : N := 2. Definition LV_DEREF : N := 3.
   Definition lv_field (lv : N) : N := if lv =? LV_DEREF then LV_HEAP else if lv =? LV_VALUE then LV_LOCAL else lv.
   Definition lv_elem (is_slice : bool) (lv : N) : N := if is_slice then LV_HEAP else lv_field lv.
-  Definition aliasing (lv : N) (p : vplan) : bool :=
-    (lv =? LV_HEAP) && match p with PShare => true | _ => false end.
+  Definition aliasing (lv : N) (p : vplan) : bool := false.
 
   (* ---------------- calling methods and custom functions (generator.CallMethod) ---------------- *)
   (* types.AssignableTo for the generated fragment: identical, or identical underlying types with at most one named *)
